@@ -144,6 +144,7 @@ inductive Msg
   | cannotSplitEmpty                     -- "Cannot split using an empty string."
   | charIndexOutOfRange                  -- "Provided character index out of range."
   | unableToParse (s : List UInt8)       -- "Unable to parse number from '{}'."
+  | undefinedProperty                    -- "Undefined property '{}'." (vm.rs: method lookup failed)
 deriving Repr, Inhabited, DecidableEq
 
 structure Err where
